@@ -135,7 +135,7 @@ def cls(case):
 
 
 SUBS = [
-    Sub("types", check_type, strategy=lambda tier: st.one_of(asts.types(4 if tier == "quick" else 6), asts.types_x(3 if tier == "quick" else 4, 1)).map(lambda t: {"t": t}),
+    Sub("types", check_type, fuzz_runs=3000, strategy=lambda tier: st.one_of(asts.types(4 if tier == "quick" else 6), asts.types_x(3 if tier == "quick" else 4, 1)).map(lambda t: {"t": t}),
         nontrivial=lambda c: has_linear_or_fp(c["t"]), classes=cls, n_quick=3000, n_thorough=20000),
     Sub("static-array", check_sarray, strategy=lambda tier: asts.types_x(3, 1).map(lambda t: {"elem": t}),
         nontrivial=lambda c: has_linear_or_fp(c["elem"]), classes=lambda c: ["linear-elem" if ref.ref_bound(c["elem"]) == "A" else "copyable-elem"], n_quick=800, n_thorough=4000),
